@@ -456,6 +456,17 @@ ARGS_PTR = r'REP(\d+)\( ⟨E\d+:ALT(\d+)\{ \w+ : \* const Self \|\| \w+ : \* mut
 ARGS_CALL = r'REP(\d+)\( ⟨E\d+:ALT(\d+)\{ self as \* const Self as _ \|\| self as \* mut Self as _ \|\| ' + H + r' \}⟩ \),\*'
 
 
+def ret_present_exact(cond):
+    """the `-> T` part is present exactly when the function has a return type: is_some(function.return_type), the Option seen
+    through reference adapters only (no filter / and_then that could drop a declared type)"""
+    if not (isinstance(cond, tuple) and cond and cond[0] == 'is_some'):
+        return False
+    x = strip(cond[1])
+    while x[0] == 'call' and re.search(r'Option::<T>::(as_ref|as_deref|as_mut)$', x[1]) and x[2]:
+        x = strip(x[2][0])
+    return x[0] == 'field' and x[2] == 'return_type' and strip(x[1])[0] == 'arg'
+
+
 def fn_rules(ctx, fn):
     P = ctx.prog
     where = loc(fn.f.span)
@@ -477,7 +488,7 @@ def fn_rules(ctx, fn):
     vlab = fn.alts[int(valt)][1]
     ok = (pname[0] == 'function.name' and base == 'function.arguments' and chain == ['iter', 'map', 'collect'] and r[2] == ',' and
           [x.split('=')[-1] for x in alabs] == ['ConstSelf', 'MutSelf', 'Field'] and pan[0] is not None and pan[0].endswith('Field#0') and pat[0] is not None and pat[0].endswith('Field#1') and
-          'return_type' in rcond and 'function.doc' in dsrc)
+          ret_present_exact(fn.opts[int(ropt)][1]) and 'function.doc' in dsrc)
     ctx.ob(['C04', 'C05', 'C07', 'C17'], 'R-TMPL', 'fn|signature', ok,
            'wrapper = <function docs> <function visibility> unsafe fn <function name>(<every argument in order: &self | &mut self | name: type>) [-> return type]: name %s args %s %s ret %s docs %s' % (
                pname[0], base, chain, rcond[:60], dsrc[:60]), where)
@@ -522,7 +533,8 @@ def fn_rules(ctx, fn):
         ccexpr = fn.holes[int(hcc)][1]
         det = 'cc %s (%s) params over %s %s address %s%s ret %s; call %s' % (pcc[0], pcc[3], base, chain, pa[0], pa[1], prt2[0], dc)
         ok1 = (pcc[0] == 'function.calling_convention' and is_call_(strip(ccexpr), 'CallingConvention::as_str') and base == 'function.arguments' and chain == ['iter', 'map', 'collect'] and
-               pa[0] is not None and pa[0].endswith('function.body.Address#0') and 'hex_literal' in pa[1] and prt2[0] == prt[0] and okc and re.fullmatch(ARGS_CALL, call) is not None)
+               pa[0] is not None and pa[0].endswith('function.body.Address#0') and 'hex_literal' in pa[1] and prt2[0] == prt[0] and okc and re.fullmatch(ARGS_CALL, call) is not None and
+               ret_present_exact(fn.opts[int(ro)][1]))
     ctx.ob(['C05', 'C16'], 'R-TMPL', 'fn|address-body', ok1,
            'Address body: `let f: unsafe extern "<function.calling_convention>" fn(<this: *const/*mut Self | name: type, in order>) [-> ret] = transmute(<address> as usize); f(<receiver, then the arguments in order>)` with the call in tail position: %s' % det, where)
     # Field arm
@@ -724,6 +736,30 @@ def type_printer(ctx):
     okf = len(tf) >= 4 and tf[0].replace(' ', '') == 'unsafeextern"{}"fn(' and ')' in tf and ' -> ' in tf
     cc = fn_[0][2] if fn_ else None
     okcc = cc is not None and any(isinstance(x, tuple) and x[0] == 'payload' and x[2] == 'Function' and x[3] == 0 for x in walk(cc))
+    # ` -> ` and the return type are printed exactly when the function type has a return type (no other condition), and the
+    # parameter loop runs over the unadapted parameter list
+    arrow = [e for e in fn_ if e[0] == 'w' and e[1] == ' -> ']
+    okret = False
+    if len(arrow) == 1:
+        doms = []
+        for s_ in f.switches():
+            if s_['block'] == sw[0]['block'] or (s_['cond'][0] == 'discr' and strip(s_['cond'][1])[0] == 'call' and (strip(s_['cond'][1])[3] == TRY_BRANCH or is_call_(strip(s_['cond'][1]), 'Iterator::next'))):
+                continue
+            for lab_, tgt_ in s_['edges']:
+                if f.dominates(tgt_, arrow[0][3]) and f.pred(tgt_) == [s_['block']]:
+                    doms.append((s_['cond'], lab_))
+        if len(doms) == 1 and doms[0][0][0] == 'discr' and doms[0][1] == 'Some':
+            x = strip(doms[0][0][1])
+            while x[0] == 'call' and re.search(r'(Option::<T>::(as_ref|as_deref)|::deref|::as_ref)$', x[1]) and x[2]:
+                x = strip(x[2][0])
+            okret = x[0] == 'payload' and x[2] == 'Function' and x[3] == 2 and strip(x[1])[0] == 'arg'
+    okargs = False
+    for L_ in f.loops():
+        from guards import loop_source
+        sty_, src_ = loop_source(f, L_)
+        if src_ is not None and any(isinstance(x, tuple) and x[0] == 'payload' and x[2] == 'Function' and x[3] == 1 for x in walk(expand(f, src_))):
+            okargs = not any(re.search(r'Iterator::(rev|skip|take|filter|step_by|skip_while|take_while|filter_map)$', c_[3]) for c_ in calls_in(expand(f, src_)))
+    okf = okf and okret and okargs
     ctx.ob(['C16', 'C04', 'C13'], 'R-TMPL', 'TYPE|function', okf and okcc,
            'a function pointer prints `unsafe extern "<its own calling convention>" fn (<name: type, ...>) [-> ret]`: %s' % tf, where)
     # Display for CallingConvention goes through as_str
